@@ -303,7 +303,7 @@ func (c *Chain) BalanceOf(ctx sdk.Context, token, holder common.Address) *big.In
 
 func (c *Chain) TotalSupply(ctx sdk.Context, token common.Address) *big.Int {
 	var res struct{ Value *big.Int }
-	if err := c.App.EvmKeeper.QueryContract(ctx, common.Address{}, token, contract.GetFIP20().ABI, "totalSupply", &res); err != nil {
+	if err := c.App.EvmKeeper.QueryContract(ctx, common.BytesToAddress(authtypes.NewModuleAddress("erc20")), token, contract.GetFIP20().ABI, "totalSupply", &res); err != nil {
 		panic(fmt.Sprintf("totalSupply(%s): %v", token, err))
 	}
 	return res.Value
